@@ -56,6 +56,7 @@ EthAnteReject(S, t) ==
   \/ Code(w, t.from) # "none"       \* sender is a contract
   \/ ~Ex(w, t.from)                 \* fee payer account does not exist
   \/ eff < Floor(S)                 \* below base fee / global minimum gas price
+  \/ t.gas * t.price = 0            \* exactly one fee coin is demanded: a zero fee (no coin) is refused even when the floor is 0
   \/ Bal(w, t.from) < t.gas * eff   \* cannot pay the fee
   \/ t.nonce # Nonce(w, t.from)       \* stale or future nonce
   \/ t.shape # "ok"                 \* lane rules (memo, timeout, signatures, fee fields ...): see Lanes.tla
@@ -178,6 +179,7 @@ CosmosAnteReject(S, t) ==
   \/ t.gas = 0
   \/ (S.maxGas > 0 /\ t.gas > S.maxGas)   \* SDK setup decorator (Cosmos lane only)
   \/ (t.fee \div t.gas) < Floor(S)
+  \/ t.fee = 0                      \* exactly one fee coin is demanded (both lanes)
   \/ Bal(w, t.from) < t.fee
 
 CosmosStep(S, t, o) ==
@@ -213,6 +215,22 @@ BlockBloom(S) == UNION {S.blooms[i] : i \in 1..Len(S.blooms)}
 GasForFeeMarket(S) == IF S.maxGas > 0 THEN Min(S.blockGas, S.maxGas) ELSE S.blockGas
 
 EndBlockOk(S, nextBaseFee) == NextOk(S.baseFee, GasForFeeMarket(S), S.maxGas, S.minGP, nextBaseFee)
+
+(* The gov end-blocker runs BEFORE the fee market's (app/modules.go orderEndBlockers: fee market last).  When the   *)
+(* voting period of a proposal ends in this block it refunds the deposit from the gov module account "gv" and, if  *)
+(* the proposal passed, executes its x/feemarket MsgUpdateParams, which stores the parameters verbatim: minimum    *)
+(* gas price (integer part g.minGP) and base fee g.baseFee.  EndBlockOk is then evaluated on the result, so the    *)
+(* floor and the EIP-1559 step apply to the updated parameters within the same block.                             *)
+GovEndBlock(S, g) ==
+  LET w1 == Credit(SetBal(S.w, "gv", Bal(S.w, "gv") - g.refund), g.to, g.refund)
+  IN IF g.passed THEN [S EXCEPT !.w = w1, !.minGP = g.minGP, !.baseFee = g.baseFee,
+                               !.enableCreate = IF g.evm THEN g.enableCreate ELSE @,      \* x/evm MsgUpdateParams of the same proposal
+                               !.enableCall = IF g.evm THEN g.enableCall ELSE @]
+     ELSE [S EXCEPT !.w = w1]
+
+(* An x/consensus MsgUpdateParams of the same proposal: consensus parameters are read once, when a block begins, so  *)
+(* this block's fee market step still uses the old gas target; the new block max gas counts from the next block on. *)
+AfterEndBlock(S, g) == IF g.passed /\ g.cons THEN [S EXCEPT !.maxGas = g.maxGas] ELSE S
 
 (***************************************************************************)
 (* State invariants of a world between transactions.                       *)
